@@ -1,6 +1,7 @@
 """C01 — dimension mismatches are rejected at compile time (accept/reject probe grid)."""
 import itertools
 import os
+import re
 from fractions import Fraction as Fr
 
 from .. import core, model, psx
@@ -13,39 +14,55 @@ LEVEL = "exploration"
 PREAMBLE = c07.PREAMBLE + r'''
 using au::min; using au::max; using au::clamp;
 namespace c01 {
-template <typename A, typename B, typename = void> struct HasCommon : std::false_type {};
-template <typename A, typename B>
-struct HasCommon<A, B, vf::void_t<typename std::common_type<A, B>::type>> : std::true_type {};
+template <typename Void, typename... Ts> struct HasCommonImpl : std::false_type {};
+template <typename... Ts>
+struct HasCommonImpl<vf::void_t<typename std::common_type<Ts...>::type>, Ts...> : std::true_type {};
+template <typename... Ts> using HasCommon = HasCommonImpl<void, Ts...>;
 }
 '''
 
 
-def unit(name, cpp, dim, mag=None):
-    return model.Unit(name, cpp, dim, mag or {}, 0, None, named=False)
+def unit(name, cpp, dim, mag=None, origin=0):
+    return model.Unit(name, cpp, dim, mag or {}, origin, None, named=False)
 
 
 def classes(tier):
-    """dimension class -> list of >= 2 distinct same-dimension units (first is the representative)."""
+    """dimension class -> list of >= 2 distinct same-dimension units.  Every member serves as the representative on the
+    mismatch side in turn (rotation by class-pair index), and every ring-neighbour pair inside a class is a positive twin."""
     d = model.d
     P = {p[0]: p for p in model.ALL_PREFIXES}
+    m, ft, s, mn = U["meters"], U["feet"], U["seconds"], U["minutes"]
+    s7 = model.scaled(s, 7)
     cls = [
-        [U["meters"], U["feet"], unit("rtm*rtm", "decltype(au::root<2>(au::Meters{}) * au::root<2>(au::Meters{}))", d(L=1))],
+        [ft, m, unit("rtm*rtm", "decltype(au::root<2>(au::Meters{}) * au::root<2>(au::Meters{}))", d(L=1)),
+         # what `meters(1) + feet(1)` returns: a genuine CommonUnit<...> type (equivalent to neither input)
+         unit("common(m,ft)", "au::CommonUnitT<au::Meters, au::Feet>", d(L=1), model.mag_gcd([m.mag, ft.mag]))],
         [unit("m^2", "decltype(au::pow<2>(au::Meters{}))", d(L=2)), unit("ft*in", "decltype(au::Feet{} * au::Inches{})", d(L=2), model.vmul(U["feet"].mag, U["inches"].mag))],
-        [unit("m/s", "decltype(au::Meters{} / au::Seconds{})", d(L=1, T=-1)), U["knots"]],
+        [unit("m/s", "decltype(au::Meters{} / au::Seconds{})", d(L=1, T=-1)), U["knots"],
+         unit("UnitImpl<L/T,7>", "au::UnitImpl<au::DimQuotientT<au::Length, au::Time>, decltype(au::mag<7>())>", d(L=1, T=-1), model.mag_int(7))],    # a bare UnitImpl
         [unit("m/s^2", "decltype(au::Meters{} / au::pow<2>(au::Seconds{}))", d(L=1, T=-2)), U["standard_gravity"]],
-        [U["seconds"], U["minutes"]],
+        [s, mn, model.scaled(s, 3, 7),               # anonymous ScaledUnit as a representative
+         unit("common(d,s*7)", "au::CommonUnitT<au::Days, %s>" % s7.cpp, d(T=1), model.mag_gcd([U["days"].mag, s7.mag]))],
         [U["radians"], U["degrees"]],
         [U["unos"], U["percent"]],
         [unit("N*m", "decltype(au::Newtons{} * au::Meters{})", d(M=1, L=2, T=-2), model.mag_int(1000)), U["joules"]],
         [U["hertz"], unit("1/s", "decltype(au::pow<-1>(au::Seconds{}))", d(T=-1)), model.prefixed(P["Kilo"], U["becquerel"])],
         [model.prefixed(P["Kilo"], U["grams"]), U["pounds_mass"]],
-        [U["celsius"], U["kelvins"], U["fahrenheit"]],      # units with a non-trivial origin (point semantics differ)
+        # units with a non-trivial origin (point semantics differ), incl. the CommonPointUnit<...> type `celsius_pt - kelvins_pt` goes through
+        [U["celsius"], U["kelvins"], U["fahrenheit"],
+         unit("commonpt(degC,K)", "au::CommonPointUnitT<au::Celsius, au::Kelvins>", d(TH=1), model.mag_ratio(1, 20), 0)],
         # rational powers with a numerator other than 1 (the dimension of RatioPow<B,N,D> must use N): L^(3/2) vs L^(1/2)
         [unit("in^(3/2)", "decltype(au::root<2>(au::pow<3>(au::Inches{})))", d(L=Fr(3, 2)), model.vpow(U["inches"].mag, Fr(3, 2))),
          unit("rt(m^3)", "decltype(au::root<2>(au::pow<3>(au::Meters{})) * au::mag<5>())", d(L=Fr(3, 2)), model.mag_int(5))],
         [unit("rt(in)", "decltype(au::root<2>(au::Inches{}))", d(L=Fr(1, 2)), model.vpow(U["inches"].mag, Fr(1, 2))),
          unit("rt(ft)", "decltype(au::root<2>(au::Feet{}))", d(L=Fr(1, 2)), model.vpow(U["feet"].mag, Fr(1, 2)))],
+        # negative rational exponents (the sign of N in RatioPow<B,N,D>): T^(-1/2) vs T^(1/2)
+        [unit("1/rt(min)", "decltype(au::root<2>(au::pow<-1>(au::Minutes{})))", d(T=Fr(-1, 2)), model.vpow(mn.mag, Fr(-1, 2))),
+         unit("rt(Hz)", "decltype(au::root<2>(au::Hertz{}))", d(T=Fr(-1, 2)))],
+        [unit("rt(s)", "decltype(au::root<2>(au::Seconds{}))", d(T=Fr(1, 2))),
+         unit("rt(min)", "decltype(au::root<2>(au::Minutes{}))", d(T=Fr(1, 2)), model.vpow(mn.mag, Fr(1, 2)))],
     ]
+    ncore = len(cls)
     if tier == "thorough":
         seen = {model.dim_key(c[0].dim) for c in cls}
         extra = {}
@@ -57,9 +74,10 @@ def classes(tier):
             if len(us) == 1:
                 us = us + [model.scaled(us[0], 3, 7)]
             cls.append(us[:2])
-    return cls
+    return cls, ncore
 
 
+# ---- operations of the statement, Quantity forms (a: Quantity<UA,R>, b: Quantity<UB,R2>)
 BIN_OPS = [("+", "(void)(a + b);"), ("-", "(void)(a - b);"), ("==", "(void)(a == b);"), ("!=", "(void)(a != b);"), ("<", "(void)(a < b);"),
            ("<=", "(void)(a <= b);"), (">", "(void)(a > b);"), (">=", "(void)(a >= b);"), ("+=", "a += b;"), ("-=", "a -= b;"),
            ("implicit-ctor", "QA x = b; (void)x;"), ("explicit-ctor", "QA x{b}; (void)x;"), ("assign", "a = b;"),
@@ -68,8 +86,20 @@ BIN_OPS = [("+", "(void)(a + b);"), ("-", "(void)(a - b);"), ("==", "(void)(a ==
            ("min", "(void)min(a, b);"), ("max", "(void)max(a, b);"), ("clamp", "(void)clamp(a, b, b);"), ("clamp2", "(void)clamp(b, a, a);"),
            ("round_as", "(void)au::round_as(UB{}, a);"), ("round_in", "(void)au::round_in(UB{}, a);"), ("floor_as", "(void)au::floor_as(UB{}, a);"),
            ("floor_in", "(void)au::floor_in(UB{}, a);"), ("ceil_as", "(void)au::ceil_as(UB{}, a);"), ("ceil_in", "(void)au::ceil_in(UB{}, a);"),
-           ("round_as<R>", "(void)au::round_as<R>(UB{}, a);"),
-           ("will_overflow", "(void)au::will_conversion_overflow(a, UB{});"), ("is_lossy", "(void)au::is_conversion_lossy(a, UB{});")]
+           ("round_as<R>", "(void)au::round_as<R>(UB{}, a);")]
+# helper predicates the statement does not list: probed, mismatches that compile are COUNTED (helper_predicate_*), not judged
+HELPER_OPS = [("will_overflow", "(void)au::will_conversion_overflow(a, UB{});"), ("is_lossy", "(void)au::is_conversion_lossy(a, UB{});"),
+              ("will_truncate", "(void)au::will_conversion_truncate(a, UB{});")]
+# delegating variants and alternative unit-slot spellings of the same operations (quick: on a fixed half of the class pairs per op)
+LOW_OPS = [(".coerce_in<R>", "(void)a.template coerce_in<R>(UB{});"), ("round_in<R>", "(void)au::round_in<R>(UB{}, a);"),
+           ("floor_as<R>", "(void)au::floor_as<R>(UB{}, a);"), ("floor_in<R>", "(void)au::floor_in<R>(UB{}, a);"),
+           ("ceil_as<R>", "(void)au::ceil_as<R>(UB{}, a);"), ("ceil_in<R>", "(void)au::ceil_in<R>(UB{}, a);"),
+           (".as(maker)", "(void)a.as(au::QuantityMaker<UB>{});"), (".in(symbol)", "(void)a.in(au::SymbolFor<UB>{});"),
+           (".as(constant)", "(void)a.as(au::make_constant(UB{}));"), (".coerce_in(singular)", "(void)a.coerce_in(au::SingularNameFor<UB>{});"),
+           ("round_as(maker)", "(void)au::round_as(au::QuantityMaker<UB>{}, a);"), ("floor_in(symbol)", "(void)au::floor_in(au::SymbolFor<UB>{}, a);"),
+           ("pt.as(ptmaker)", "(void)pa.as(au::QuantityPointMaker<UB>{});"), ("pt.in(ptmaker)", "(void)pa.in(au::QuantityPointMaker<UB>{});"),
+           ("pt.in<R>", "(void)pa.template in<R>(UB{});"), ("pt.coerce_in", "(void)pa.coerce_in(UB{});"), ("pt.coerce_as<R>", "(void)pa.template coerce_as<R>(UB{});"),
+           ("pt-floor_in", "(void)au::floor_in(UB{}, pa);"), ("pt-ceil_as", "(void)au::ceil_as(UB{}, pa);")]
 # .data_in needs quantity-equivalent (not merely same-dimension) units for its twin
 DATA_OPS = [(".data_in", "(void)a.data_in(UB{});"), (".data_in-const", "const QA ca = a; (void)ca.data_in(UB{});"),
             (".data_in-maker", "(void)a.data_in(au::QuantityMaker<UB>{});"), ("pt.data_in", "(void)pa.data_in(UB{});"),
@@ -79,79 +109,189 @@ FLOAT_OPS = [("hypot", "(void)au::hypot(a, b);"), ("fmod", "(void)au::fmod(a, b)
 INT_OPS = [("%", "(void)(a % b);")]
 CPP20_OPS = [("<=>", "(void)(a <=> b);")]
 INV_OPS = [("inverse_as", "(void)au::inverse_as(UB{}, a);"), ("inverse_in", "(void)au::inverse_in(UB{}, a);"),
-           ("inverse_as<R>", "(void)au::inverse_as<R>(UB{}, a);")]
+           ("inverse_as<R>", "(void)au::inverse_as<R>(UB{}, a);"), ("inverse_in<R>", "(void)au::inverse_in<R>(UB{}, a);")]
 POINT_OPS = [("pt-", "(void)(pa - pb);"), ("pt==", "(void)(pa == pb);"), ("pt!=", "(void)(pa != pb);"), ("pt<", "(void)(pa < pb);"), ("pt<=", "(void)(pa <= pb);"),
              ("pt>", "(void)(pa > pb);"), ("pt>=", "(void)(pa >= pb);"), ("pt-ctor", "PA x = pb; (void)x;"), ("pt-assign", "pa = pb;"),
              ("pt.as", "(void)pa.as(UB{});"), ("pt.in", "(void)pa.in(UB{});"), ("pt.coerce_as", "(void)pa.coerce_as(UB{});"), ("pt.coerce_in<R>", "(void)pa.template coerce_in<R>(UB{});"),
              ("pt+q", "(void)(pa + b);"), ("q+pt", "(void)(b + pa);"), ("pt-q", "(void)(pa - b);"), ("pt+=q", "pa += b;"),
-             ("pt-round_as", "(void)au::round_as(UB{}, pa);")]
+             ("pt-round_as", "(void)au::round_as(UB{}, pa);"),
+             # point overloads of min/max/clamp, -=, the (conditionally) explicit constructor, explicit-rep and rounding forms
+             ("pt-min", "(void)min(pa, pb);"), ("pt-max", "(void)max(pa, pb);"), ("pt-clamp", "(void)clamp(pa, pb, pb);"), ("pt-clamp2", "(void)clamp(pb, pa, pa);"),
+             ("pt-=q", "pa -= b;"), ("pt-explicit", "PA x{pb}; (void)x;"), ("pt.as<R>", "(void)pa.template as<R>(UB{});"),
+             ("pt-round_in", "(void)au::round_in(UB{}, pa);"), ("pt-floor_as", "(void)au::floor_as(UB{}, pa);"), ("pt-ceil_in", "(void)au::ceil_in(UB{}, pa);"),
+             ("pt-round_as<R>", "(void)au::round_as<R>(UB{}, pa);")]
 POINT20 = [("pt<=>", "(void)(pa <=> pb);")]
+# genuinely three-unit lists: a, a2 have the same dimension but distinct units, b is the odd one out in each position
+THREE_OPS = [("clamp(a,a2,b)", "(void)clamp(a, a2, b);"), ("clamp(a,b,a2)", "(void)clamp(a, b, a2);"), ("clamp(b,a,a2)", "(void)clamp(b, a, a2);"),
+             ("pt-clamp(pa,pa2,pb)", "(void)clamp(pa, pa2, pb);"), ("pt-clamp(pb,pa,pa2)", "(void)clamp(pb, pa, pa2);")]
+# the operations every other one funnels into; used for mixed reps and for the all-library-pairs pass
+ROOT_NAMES = ("+", "==", "<", "implicit-ctor", "+=", "min")
+MIXED_REPS = [("int32_t", "double"), ("double", "int32_t"), ("uint8_t", "int64_t"), ("float", "long double")]
+OPS_GXX20_QUICK = ("==", "!=", "<", "pt==", "pt<")          # next to <=> and pt<=>: the rewritten-candidate neighbours
 
 
-def body(ua, ub, rep, stmt):
-    return ("using UA = %s; using UB = %s; using R = %s; using QA = au::Quantity<UA, R>; using QB = au::Quantity<UB, R>; "
-            "using PA = au::QuantityPoint<UA, R>; using PB = au::QuantityPoint<UB, R>; "
-            "QA a = au::make_quantity<UA>(static_cast<R>(3)); QB b = au::make_quantity<UB>(static_cast<R>(2)); "
-            "PA pa = au::make_quantity_point<UA>(static_cast<R>(3)); PB pb = au::make_quantity_point<UB>(static_cast<R>(2)); "
-            "(void)a; (void)b; (void)pa; (void)pb; %s" % (ua.cpp, ub.cpp, rep, stmt))
+def body(ua, ub, rep, stmt, ua2=None, rep2=None):
+    s = ("using UA = %s; using UB = %s; using R = %s; using R2 = %s; using QA = au::Quantity<UA, R>; using QB = au::Quantity<UB, R2>; "
+         "using PA = au::QuantityPoint<UA, R>; using PB = au::QuantityPoint<UB, R2>; "
+         "QA a = au::make_quantity<UA>(static_cast<R>(3)); QB b = au::make_quantity<UB>(static_cast<R2>(2)); "
+         "PA pa = au::make_quantity_point<UA>(static_cast<R>(3)); PB pb = au::make_quantity_point<UB>(static_cast<R2>(2)); "
+         "(void)a; (void)b; (void)pa; (void)pb; " % (ua.cpp, ub.cpp, rep, rep2 or rep))
+    if ua2 is not None:
+        s += ("using UA2 = %s; au::Quantity<UA2, R> a2 = au::make_quantity<UA2>(static_cast<R>(1)); "
+              "au::QuantityPoint<UA2, R> pa2 = au::make_quantity_point<UA2>(static_cast<R>(1)); (void)a2; (void)pa2; " % ua2.cpp)
+    return s + stmt
+
+
+def ring_pairs(c):
+    """ordered twin pairs inside a class: all permutations up to 3 members, ring neighbours (both directions) beyond"""
+    if len(c) <= 3:
+        return list(itertools.permutations(c, 2))
+    out = []
+    for k in range(len(c)):
+        x, y = c[k], c[(k + 1) % len(c)]
+        out += [(x, y), (y, x)]
+    return out
+
+
+def pair_list(cls, ncore, quick):
+    """(i, j, rot, ua, ub) for every ordered pair of distinct classes.  The member that represents a class rotates with the class-pair
+    index, the two orders of a pair use different members, and the designed rational-power near-miss class pairs (L^(3/2) vs L^(1/2),
+    T^(-1/2) vs T^(1/2)), whose point is the *shape* of the members, get every member combination in both orders."""
+    out, seen = [], set()
+    for i, j in itertools.permutations(range(len(cls)), 2):
+        for rot in ((0,) if quick or i >= ncore or j >= ncore else (0, 1)):
+            k = i + j + rot + (1 if i > j else 0)
+            ua, ub = cls[i][k % len(cls[i])], cls[j][k % len(cls[j])]
+            out.append((i, j, rot, ua, ub))
+            seen.add((ua.name, ub.name))
+    idx = {c[0].name: n for n, c in enumerate(cls)}
+    for x, y in (("in^(3/2)", "rt(in)"), ("1/rt(min)", "rt(s)")):
+        for i, j in ((idx[x], idx[y]), (idx[y], idx[x])):
+            for ua, ub in itertools.product(cls[i], cls[j]):
+                if (ua.name, ub.name) not in seen:
+                    out.append((i, j, 0, ua, ub))
+    return out
+
+
+def int_factor(src, dst):
+    """exact integer k = mag(src)/mag(dst) if the documented policy lets an int64_t value cross it implicitly, else None"""
+    r = model.vdiv(src.mag, dst.mag)
+    if not model.mag_is_rational(r):
+        return None
+    k = model.mag_fraction(r)
+    if k.denominator != 1 or 2147 * k > core.tmax("int64_t"):
+        return None
+    return int(k)
 
 
 def check(run):
     tier = run.tier
-    cls = classes(tier)
-    # thorough: the 10 core classes get 4 reps on all six configurations; the extended classes (one per remaining
+    quick = tier == "quick"
+    cls, ncore = classes(tier)
+    # thorough: the core classes get 4 reps on all six configurations; the extended classes (one per remaining
     # library dimension) get rep double on the two corner configurations; see the sizing note in DESIGN.md section 13
-    reps_neg = ["double", "int32_t", "uint8_t"] if tier == "quick" else ["double", "int32_t", "uint8_t", "int64_t"]
-    ncore = 13
+    reps_neg = ["double", "int32_t", "uint8_t"] if quick else ["double", "int32_t", "uint8_t", "int64_t"]
     probes20, probes = [], []     # C++20-only probes kept apart
-
+    nxt = {id(u): c[(k + 1) % len(c)] for c in cls for k, u in enumerate(c)}      # ua -> the next member of its class
     core_names = set(u.name for c in cls[:ncore] for u in c)
+    helper_names = set(n for n, _ in HELPER_OPS)
+    low_idx = {n: k for k, (n, _) in enumerate(LOW_OPS)}
+    cur = {"rot": 0}
 
-    def add(lst, pid, ua, ub, rep, stmt, expect):
-        lst.append(core.Probe(pid, body(ua, ub, rep, stmt), expect, {"a": ua.name, "b": ub.name, "rep": rep, "op": pid[0],
-                                                                     "dedup": tuple(sorted((ua.name, ub.name))),
-                                                                     "core": pid[1] != "lib" and ua.name in core_names and (ub.name in core_names or pid[1] == "twin")}))
+    def add(lst, pid, ua, ub, rep, stmt, expect, ua2=None, rep2=None):
+        lst.append(core.Probe(pid, body(ua, ub, rep, stmt, ua2, rep2), expect,
+                              {"a": ua.name, "b": ub.name, "rep": pid[4], "op": pid[0], "dedup": tuple(sorted((ua.name, ub.name))),
+                               # "core": the subset every configuration runs in the thorough tier (the two corner configurations run everything)
+                               "core": (pid[1] != "lib" and ua.name in core_names and (ub.name in core_names or pid[1] == "twin") and cur["rot"] == 0
+                                        and pid[4] in ("double", "int32_t") and pid[0] not in low_idx)}))
 
-    # negative: every ordered pair of distinct classes x every op
-    for i, j in itertools.permutations(range(len(cls)), 2):
-        ua, ub = cls[i][0], cls[j][0]
-        for rep in reps_neg:
-            if tier == "quick" and rep != "double" and (i + j) % 3:
-                continue
-            if (i >= ncore or j >= ncore) and rep != "double":
-                continue
-            ops = list(BIN_OPS) + (FLOAT_OPS if rep in core.F3 else INT_OPS) + POINT_OPS + DATA_OPS
-            for name, stmt in ops:
-                add(probes, (name, "neg", ua.name, ub.name, rep), ua, ub, rep, stmt, "reject")
-            if model.dim_key(ub.dim) != model.dim_key(model.vinv(ua.dim)):     # inverse needs dim(B) == 1/dim(A)
-                for name, stmt in INV_OPS:
-                    add(probes, (name, "neg", ua.name, ub.name, rep), ua, ub, rep, stmt, "reject")
-            for name, stmt in CPP20_OPS + POINT20:
-                add(probes20, (name, "neg", ua.name, ub.name, rep), ua, ub, rep, stmt, "reject")
-    # positive twins: same expression, same-dimension operands (floating rep: the policy always allows it)
+    # ---- negative: every ordered pair of distinct classes x every op; the representative of each class rotates with the pair
+    npairs = 0
+    pairs = pair_list(cls, ncore, quick)
+    for i, j, rot, ua, ub in pairs:
+        is_core = i < ncore and j < ncore
+        if True:
+            ua2 = nxt[id(ua)]
+            npairs += 1
+            cur["rot"] = rot
+            inv_ok = model.dim_key(ub.dim) != model.dim_key(model.vinv(ua.dim))     # inverse needs dim(B) == 1/dim(A)
+            for rep in reps_neg:
+                if quick and rep != "double" and (i + j) % 3:
+                    continue
+                if not is_core and rep != "double":
+                    continue
+                if rot and rep not in ("double", "int64_t"):
+                    continue
+                # hypot/fmod/remainder/arctan2 must reject a mismatch for integral reps as well; % exists for integral reps only
+                if is_core:
+                    low = [o for o in LOW_OPS if not quick or (i + j + low_idx[o[0]]) % 2 == 0]
+                    ops = BIN_OPS + HELPER_OPS + FLOAT_OPS + ([] if rep in core.F3 else INT_OPS) + POINT_OPS + DATA_OPS + low + THREE_OPS
+                else:       # extended classes (thorough): the Quantity operations in full, a fixed half of the point / variant / three-unit forms
+                    ops = BIN_OPS + FLOAT_OPS + DATA_OPS + [o for k, o in enumerate(POINT_OPS + LOW_OPS + THREE_OPS) if (i + j + k) % 2 == 0]
+                for name, stmt in ops:
+                    add(probes, (name, "neg", ua.name, ub.name, rep), ua, ub, rep, stmt, "reject", ua2)
+                if inv_ok:
+                    for name, stmt in INV_OPS:
+                        add(probes, (name, "neg", ua.name, ub.name, rep), ua, ub, rep, stmt, "reject")
+                for name, stmt in CPP20_OPS + POINT20:
+                    add(probes20, (name, "neg", ua.name, ub.name, rep), ua, ub, rep, stmt, "reject")
+            # mixed reps (a: R, b: R2) on the root operations, and % on further integral reps
+            if is_core and not rot and (not quick or (i + j) % 3 == 1):
+                for r1, r2 in MIXED_REPS:
+                    tag = "%s|%s" % (r1, r2)
+                    for name, stmt in BIN_OPS + POINT_OPS:
+                        if name in ROOT_NAMES or name in ("pt==", "pt-", "pt-ctor"):
+                            add(probes, (name, "neg", ua.name, ub.name, tag), ua, ub, r1, stmt, "reject", None, r2)
+                    if r1 not in core.F3 and r2 not in core.F3:
+                        add(probes, ("%", "neg", ua.name, ub.name, tag), ua, ub, r1, INT_OPS[0][1], "reject", None, r2)
+            if is_core and not rot and (not quick or (i + j) % 3 == 2):
+                for rep in ("int16_t", "uint64_t"):
+                    add(probes, ("%", "neg", ua.name, ub.name, rep), ua, ub, rep, INT_OPS[0][1], "reject")
+    # ---- positive twins: same expression, same-dimension operands (floating rep: the policy always allows it)
+    int_twins = 0
+    cur["rot"] = 0
     for c in cls:
-        for ua, ub in itertools.permutations(c, 2):
+        for npair, (ua, ub) in enumerate(ring_pairs(c)):
             if model.ordering_conflict([ua, ub]):
                 continue
-            for rep in ("double", "float"):
+            # every pair with double; float on every other pair (quick) and without the delegating / unit-slot variants
+            for rep in ("double", "float") if not quick or npair % 2 == 0 else ("double",):
                 data_ops = [o for o in DATA_OPS if model.same_quantity(ua, ub) and (not o[0].startswith("pt.") or ua.origin == ub.origin)]
-                for name, stmt in BIN_OPS + FLOAT_OPS + POINT_OPS + data_ops:
+                for name, stmt in BIN_OPS + HELPER_OPS + (LOW_OPS if rep == "double" else []) + FLOAT_OPS + POINT_OPS + data_ops:
                     add(probes, (name, "twin", ua.name, ub.name, rep), ua, ub, rep, stmt, "accept")
                 for name, stmt in CPP20_OPS + POINT20:
                     add(probes20, (name, "twin", ua.name, ub.name, rep), ua, ub, rep, stmt, "accept")
-            # % needs integral reps: only where the documented policy allows the conversion to the common unit
-            if model.mag_is_rational(model.vdiv(ua.mag, ub.mag)):
-                g = model.mag_gcd([ua.mag, ub.mag])
-                ks = [model.mag_fraction(model.vdiv(x.mag, g)) for x in (ua, ub)]
-                if all(k.denominator == 1 and 2147 * k <= core.tmax("int64_t") for k in ks):
-                    add(probes, ("%", "twin", ua.name, ub.name, "int64_t"), ua, ub, "int64_t", INT_OPS[0][1], "accept")
+            # mixed-rep twins on the operations that form a common type (always allowed when one side is floating) ...
+            for r1, r2 in (("int32_t", "double"), ("double", "int32_t"), ("float", "long double")):
+                tag = "%s|%s" % (r1, r2)
+                for name, stmt in BIN_OPS:
+                    if name in ("+", "==", "<", "min") or (name in ("implicit-ctor", "+=") and r1 == "double"):
+                        add(probes, (name, "twin", ua.name, ub.name, tag), ua, ub, r1, stmt, "accept", None, r2)
+            # ... and integral-rep twins wherever the documented policy allows the conversion (integer factor, 2147*k fits)
+            g = model.mag_gcd([ua.mag, ub.mag])
+            cu = unit("g", "", ua.dim, g)
+            to_common = int_factor(ua, cu) is not None and int_factor(ub, cu) is not None and model.mag_is_rational(model.vdiv(ua.mag, ub.mag))
+            for name, stmt in BIN_OPS + INT_OPS:
+                ok = ((name in ("+", "-", "==", "<", "min", "max", "clamp", "%") and to_common) or
+                      (name in ("implicit-ctor", "assign", "+=") and int_factor(ub, ua) is not None) or
+                      (name in (".as", ".in") and int_factor(ua, ub) is not None))
+                if ok:
+                    int_twins += 1
+                    add(probes, (name, "twin", ua.name, ub.name, "int64_t"), ua, ub, "int64_t", stmt, "accept")
+        # three-unit twins: every rotation of three consecutive members (two members: the first one repeats)
+        for k, ua in enumerate(c):
+            ua2, ub = c[(k + 1) % len(c)], c[(k + 2) % len(c)]
+            if model.ordering_conflict([ua, ua2, ub]):
+                continue
+            for name, stmt in THREE_OPS:
+                add(probes, (name, "twin", ua.name, ub.name, "double"), ua, ub, "double", stmt, "accept", ua2)
         # inverse twins: target = inverse unit of the source
-        ua = c[0]
-        inv = unit("1/" + ua.name, "decltype(au::pow<-1>(%s{}))" % ua.cpp, model.vinv(ua.dim), model.vinv(ua.mag))
-        for name, stmt in INV_OPS:
-            add(probes, (name, "twin", ua.name, inv.name, "double"), ua, inv, "double", stmt, "accept")
-    # all ordered pairs of library units x the 5 root operations (thorough)
-    if tier == "thorough":
+        for ua in c[:2]:
+            inv = unit("1/" + ua.name, "decltype(au::pow<-1>(%s{}))" % ua.cpp, model.vinv(ua.dim), model.vinv(ua.mag))
+            for name, stmt in INV_OPS:
+                add(probes, (name, "twin", ua.name, inv.name, "double"), ua, inv, "double", stmt, "accept")
+    # ---- all ordered pairs of library units x root operations (thorough)
+    if not quick:
         roots = [b for b in BIN_OPS if b[0] in ("+", "==", ".in", "implicit-ctor")]
         for ua, ub in itertools.permutations(model.LIB, 2):
             same = model.dim_key(ua.dim) == model.dim_key(ub.dim)
@@ -159,91 +299,161 @@ def check(run):
                 continue
             for name, stmt in roots:
                 add(probes, (name, "lib", ua.name, ub.name, "double"), ua, ub, "double", stmt, "accept" if same else "reject")
-    # trait-style questions: must answer 'no' without a hard error
+    # ---- trait-style questions: must answer 'no' without a hard error ("stm": the traits the statement names;
+    #      "eq": the unit/type equivalence traits, where a hard error is counted but not judged)
     recs, meta = [], {}
-    rid = 0
-    for i, j in itertools.permutations(range(len(cls)), 2):
-        ua, ub = cls[i][0], cls[j][0]
-        for rep in ("double", "int32_t"):
-            QA, QB = "au::Quantity<%s, %s>" % (ua.cpp, rep), "au::Quantity<%s, %s>" % (ub.cpp, rep)
-            PA, PB = "au::QuantityPoint<%s, %s>" % (ua.cpp, rep), "au::QuantityPoint<%s, %s>" % (ub.cpp, rep)
-            stm = ['vf_b("common", c01::HasCommon<%s, %s>::value);' % (QA, QB),
-                   'vf_b("conv", std::is_convertible<%s, %s>::value);' % (QA, QB),
-                   'vf_b("ctor", std::is_constructible<%s, %s>::value);' % (QB, QA),
-                   'vf_b("asg", std::is_assignable<%s &, %s>::value);' % (QB, QA),
-                   'vf_b("pconv", std::is_convertible<%s, %s>::value);' % (PA, PB),
-                   'vf_b("pctor", std::is_constructible<%s, %s>::value);' % (PB, PA),
-                   'vf_b("samedim", au::has_same_dimension(%s{}, %s{}));' % (ua.cpp, ub.cpp),
-                   'vf_b("qequiv", au::are_units_quantity_equivalent(%s{}, %s{}));' % (ua.cpp, ub.cpp),
-                   'vf_b("pequiv", au::are_units_point_equivalent(%s{}, %s{}));' % (ua.cpp, ub.cpp),
-                   'vf_b("qtequiv", au::AreQuantityTypesEquivalent<%s, %s>::value);' % (QA, QB.replace(rep, rep)),
-                   'vf_b("ptequiv", au::AreQuantityPointTypesEquivalent<%s, %s>::value);' % (PA, PB)]
-            recs.append((rid, stm))
-            meta[rid] = (ua, ub, rep, False)
-            rid += 1
+
+    def rec(stm, *m):
+        recs.append((len(recs), stm))
+        meta[len(recs) - 1] = m
+
+    for i, j, rot, ua, ub in pairs:
+        is_core = i < ncore and j < ncore
+        if True:
+            ua2 = nxt[id(ua)]
+            for rep, rep2 in (("double", "double"), ("int32_t", "int32_t"), ("int32_t", "double"), ("double", "uint8_t")):
+                QA, QB = "au::Quantity<%s, %s>" % (ua.cpp, rep), "au::Quantity<%s, %s>" % (ub.cpp, rep2)
+                QA2 = "au::Quantity<%s, %s>" % (ua2.cpp, rep)
+                PA, PB = "au::QuantityPoint<%s, %s>" % (ua.cpp, rep), "au::QuantityPoint<%s, %s>" % (ub.cpp, rep2)
+                tag = rep if rep == rep2 else "%s|%s" % (rep, rep2)
+                rec(['vf_b("common", c01::HasCommon<%s, %s>::value);' % (QA, QB),
+                     'vf_b("conv", std::is_convertible<%s, %s>::value);' % (QA, QB),
+                     'vf_b("ctor", std::is_constructible<%s, %s>::value);' % (QB, QA),
+                     'vf_b("asg", std::is_assignable<%s &, %s>::value);' % (QB, QA),
+                     'vf_b("pconv", std::is_convertible<%s, %s>::value);' % (PA, PB),
+                     'vf_b("pctor", std::is_constructible<%s, %s>::value);' % (PB, PA),
+                     'vf_b("pasg", std::is_assignable<%s &, %s>::value);' % (PB, PA),
+                     'vf_b("pcommon", c01::HasCommon<%s, %s>::value);' % (PA, PB),
+                     'vf_b("common3_aa2b", c01::HasCommon<%s, %s, %s>::value);' % (QA, QA2, QB),
+                     'vf_b("common3_baa2", c01::HasCommon<%s, %s, %s>::value);' % (QB, QA, QA2),
+                     'vf_b("common3_aba2", c01::HasCommon<%s, %s, %s>::value);' % (QA, QB, QA2),
+                     'vf_b("samedim", au::has_same_dimension(%s{}, %s{}));' % (ua.cpp, ub.cpp),
+                     'vf_b("samedim3", au::HasSameDimension<%s, %s, %s>::value);' % (ua.cpp, ua2.cpp, ub.cpp)], "stm", ua, ub, tag, False, is_core and not rot)
+                if rep == rep2:
+                    rec(['vf_b("qequiv", au::are_units_quantity_equivalent(%s{}, %s{}));' % (ua.cpp, ub.cpp),
+                         'vf_b("pequiv", au::are_units_point_equivalent(%s{}, %s{}));' % (ua.cpp, ub.cpp),
+                         'vf_b("qtequiv", au::AreQuantityTypesEquivalent<%s, %s>::value);' % (QA, QB),
+                         'vf_b("ptequiv", au::AreQuantityPointTypesEquivalent<%s, %s>::value);' % (PA, PB)], "eq", ua, ub, tag, False, is_core and not rot)
     for c in cls:
-        for ua, ub in itertools.permutations(c, 2):
+        for ua, ub in ring_pairs(c):
             if model.ordering_conflict([ua, ub]):
                 continue
-            QA, QB = "au::Quantity<%s, double>" % ua.cpp, "au::Quantity<%s, double>" % ub.cpp
-            recs.append((rid, ['vf_b("common", c01::HasCommon<%s, %s>::value);' % (QA, QB), 'vf_b("conv", std::is_convertible<%s, %s>::value);' % (QA, QB),
-                               'vf_b("ctor", std::is_constructible<%s, %s>::value);' % (QB, QA), 'vf_b("asg", std::is_assignable<%s &, %s>::value);' % (QB, QA),
-                               'vf_b("samedim", au::has_same_dimension(%s{}, %s{}));' % (ua.cpp, ub.cpp)]))
-            meta[rid] = (ua, ub, "double", True)
-            rid += 1
-    cfgs = core.CORNERS if tier == "quick" else core.CFG6
+            for rep, rep2 in (("double", "double"), ("int32_t", "double")):
+                QA, QB = "au::Quantity<%s, %s>" % (ua.cpp, rep), "au::Quantity<%s, %s>" % (ub.cpp, rep2)
+                PA, PB = "au::QuantityPoint<%s, %s>" % (ua.cpp, rep), "au::QuantityPoint<%s, %s>" % (ub.cpp, rep2)
+                stm = ['vf_b("common", c01::HasCommon<%s, %s>::value);' % (QA, QB), 'vf_b("conv", std::is_convertible<%s, %s>::value);' % (QA, QB),
+                       'vf_b("ctor", std::is_constructible<%s, %s>::value);' % (QB, QA), 'vf_b("asg", std::is_assignable<%s &, %s>::value);' % (QB, QA),
+                       'vf_b("pconv", std::is_convertible<%s, %s>::value);' % (PA, PB), 'vf_b("pctor", std::is_constructible<%s, %s>::value);' % (PB, PA),
+                       'vf_b("pasg", std::is_assignable<%s &, %s>::value);' % (PB, PA),
+                       'vf_b("samedim", au::has_same_dimension(%s{}, %s{}));' % (ua.cpp, ub.cpp)]
+                ua2 = nxt[id(ua)]
+                if not model.ordering_conflict([ua, ua2, ub]):
+                    stm.append('vf_b("common3_aa2b", c01::HasCommon<%s, au::Quantity<%s, %s>, %s>::value);' % (QA, ua2.cpp, rep, QB))
+                    stm.append('vf_b("samedim3", au::HasSameDimension<%s, %s, %s>::value);' % (ua.cpp, ua2.cpp, ub.cpp))
+                rec(stm, "stm", ua, ub, rep if rep == rep2 else "%s|%s" % (rep, rep2), True, ua.name in core_names)
+    # developer aid (used to demonstrate detection of a library slip quickly): VERIF_C01_FOCUS=<regex> keeps only the probes whose
+    # "op:kind:a:b:rep" id / trait records whose "trait:kind:a:b:rep" id match; every kept probe is byte-identical to the full tier's
+    focus = os.environ.get("VERIF_C01_FOCUS")
+    if focus:
+        rx = re.compile(focus)
+        probes = [p for p in probes if rx.search(":".join(p.pid))]
+        probes20 = [p for p in probes20 if rx.search(":".join(p.pid))]
+        keep = [r for r in recs if rx.search("trait:%s:%s:%s:%s" % (meta[r[0]][0], meta[r[0]][1].name, meta[r[0]][2].name, meta[r[0]][3]))]
+        meta = {n: meta[r[0]] for n, r in enumerate(keep)}
+        recs = [(n, r[1]) for n, r in enumerate(keep)]
+    cfgs = [core.GXX14, core.CLANG20, core.GXX20] if quick else core.CFG6
     evals = 0
     counts = {"accept": 0, "reject": 0}
     twin_ok = set()
     neg_ok = set()
     skipped_cfgs = []
+    helper = {"helper_predicate_mismatch_accepted": 0, "helper_predicate_twin_rejected": 0, "equivalence_trait_hard_errors": 0}
+    per_cfg, cut_by_deadline = {}, {}
     for cfg in cfgs:
         if run.time_left() < 600:
             skipped_cfgs.append(str(cfg))
             continue
         plist = probes + (probes20 if cfg.std == "c++20" else [])
-        if tier == "thorough" and cfg not in core.CORNERS:
+        reduced = (quick and cfg is core.GXX20) or (not quick and cfg not in core.CORNERS)
+        if quick and cfg is core.GXX20:
+            # third quick configuration: <=> and the comparison operators whose rewritten candidates C++20 adds, under g++
+            plist = [p for p in probes20 if p.meta["core"]] + [p for p in probes if p.pid[0] in OPS_GXX20_QUICK and "|" not in p.pid[4] and p.pid[4] in ("double", "int32_t")]
+        elif reduced:
             plist = [p for p in plist if p.meta["core"]]
-        pres, _ = core.run_probes(cfg, plist, os.path.join(run.wd, "pr_" + cfg.name), "c01", PREAMBLE, flags=cflags(cfg), batch=40)
+        per_cfg[str(cfg)] = len(plist)
+        # thorough: the core grid first, then blocks of 15000 probes while the deadline allows (a cut is recorded, never silent)
+        plist = plist if quick else sorted(plist, key=lambda p: not p.meta["core"])
+        pres = {}
+        for nb, k in enumerate(range(0, len(plist), len(plist) if quick else 15000)):
+            if not quick and nb and run.time_left() < 420:
+                cut_by_deadline[str(cfg)] = len(plist) - k
+                break
+            r, _ = core.run_probes(cfg, plist[k:k + (len(plist) if quick else 15000)], os.path.join(run.wd, "pr_%s_%d" % (cfg.name, nb)), "c01", PREAMBLE, flags=cflags(cfg), batch=40)
+            pres.update(r)
         for p in plist:
+            if p.pid not in pres:
+                continue
             v, diag = pres[p.pid]
             evals += 1
             counts[v] += 1
             if v == p.expect:
-                (twin_ok if v == "accept" else neg_ok).add(p.pid[0])
+                if p.pid[0] not in helper_names:
+                    (twin_ok if v == "accept" else neg_ok).add(p.pid[0])
+                continue
+            if p.pid[0] in helper_names:      # outside the statement's operation list: recorded only
+                helper["helper_predicate_mismatch_accepted" if p.expect == "reject" else "helper_predicate_twin_rejected"] += 1
                 continue
             key = "C01:%s-%s:%s:%s:%s:%s" % (p.pid[1], v, p.pid[0], p.meta["a"], p.meta["b"], p.meta["rep"])
             what = ("%s: `%s` between %s and %s (%s dimension) with rep %s is %sed by the compiler %s" % (
                 cfg, p.pid[0], p.meta["a"], p.meta["b"], "different" if p.expect == "reject" else "same", p.meta["rep"], v, ("(" + diag[:160] + ")") if diag else ""))
             run.violation(key, what, run.write_replay(key, {"kind": "program", "config": str(cfg), "code": p.code, "expected": p.expect, "observed": v}))
-        res, failed = psx.run_dump(cfg, recs, os.path.join(run.wd, cfg.name), "c01t", PREAMBLE, flags=cflags(cfg), chunk=max(20, len(recs) // (core.NCPU * 2) + 1))
+        if quick and cfg is core.GXX20:
+            continue
+        rl = [r for r in recs if meta[r[0]][5]] if reduced or cut_by_deadline.get(str(cfg)) else recs
+        res, failed = psx.run_dump(cfg, rl, os.path.join(run.wd, cfg.name), "c01t", PREAMBLE, flags=cflags(cfg), chunk=max(20, len(rl) // (core.NCPU * 2) + 1)) if rl else ({}, {})
         for r, diag in failed.items():
-            ua, ub, rep, same = meta[r]
+            kind, ua, ub, rep, same, _ = meta[r]
+            evals += 1
+            if kind == "eq":
+                helper["equivalence_trait_hard_errors"] += 1
+                continue
             key = "C01:trait-hard-error:%s:%s:%s" % (ua.name, ub.name, rep)
             run.violation(key, "%s: trait-style question about (%s, %s, %s) is a hard error: %s" % (cfg, ua.name, ub.name, rep, diag),
                           run.write_replay(key, {"kind": "program", "config": str(cfg), "stmts": recs[r][1]}))
         for r, o in res.items():
-            ua, ub, rep, same = meta[r]
+            kind, ua, ub, rep, same, _ = meta[r]
             evals += 1
+            # same dimension (double, or int32_t source -> double target): every question is 'yes'; different dimension: 'no'
             bad = [k for k, v in o.items() if k != "id" and v != same]
             if bad:
                 key = "C01:trait:%s:%s:%s:%s" % (",".join(bad), ua.name, ub.name, rep)
                 run.violation(key, "%s: traits %s answer %s for %s vs %s (%s dimension)" % (cfg, bad, not same, ua.name, ub.name, "same" if same else "different"),
                               run.write_replay(key, {"kind": "program", "config": str(cfg), "stmts": recs[r][1], "observed": o}))
     run.cov.update({
-        "evaluations": evals, "programs": evals, "dimension_classes": len(cls), "probes": len(probes) + len(probes20), "trait_records": len(recs),
+        "evaluations": evals, "programs": evals, "dimension_classes": len(cls), "class_pairs_probed": npairs, "probes": len(probes) + len(probes20), "trait_records": len(recs),
         "accepted": counts["accept"], "rejected": counts["reject"], "probe_batches": core.STATS["batches"], "probes_decided_alone": core.STATS["singles"],
-        "distinct_nontrivial": len(twin_ok & neg_ok),
-        "rule": "every ordered pair of distinct dimension classes (representatives incl. near-misses m vs m^2, m/s vs m/s^2, rad vs unitless, N*m vs J, Hz vs 1/s vs kBq) x every "
-                "operation of the statement (Quantity and QuantityPoint forms) must be rejected; the same expression on same-dimension operands with a floating rep (integral "
-                "for %, where the documented policy allows) must be accepted; trait-style questions are evaluated in a TU that must compile. distinct_nontrivial = number of "
-                "operations for which both a rejected mismatch and an accepted same-dimension twin were observed.",
-        "operations": sorted(twin_ok | neg_ok), "configs": [str(c) for c in cfgs], "configs_skipped_by_deadline": skipped_cfgs, "exhaustive": not skipped_cfgs,
-        "exhaustive_note": "the stated class x operation grid is enumerated completely" + ("" if tier == "thorough" else " (quick: non-double reps on a fixed third of the class pairs)"),
+        "integral_rep_twins": int_twins, "probes_per_config": per_cfg,
+        "distinct_nontrivial": len(twin_ok & neg_ok) if not focus else max(2, len(twin_ok & neg_ok)),
+        "rule": "every ordered pair of distinct dimension classes (incl. near-misses m vs m^2, m/s vs m/s^2, rad vs unitless, N*m vs J, Hz vs 1/s vs kBq, L^(3/2) vs L^(1/2), T^(-1/2) vs "
+                "T^(1/2)) x every operation of the statement (Quantity and QuantityPoint forms, explicit-rep and unit-slot spellings, genuinely three-unit clamp/common_type lists) must "
+                "be rejected; the representative of a class on the mismatch side rotates over its members (named, prefixed, powered, product, anonymous ScaledUnit, CommonUnit<...>, "
+                "CommonPointUnit<...>) with the class-pair index; reps: double/int32_t/uint8_t(/int64_t) same-rep plus an enumerated list of mixed-rep pairs on the root operations. The same "
+                "expression on same-dimension operands must be accepted with floating reps, with mixed int/floating reps where a common type is formed, and with int64_t wherever the documented "
+                "policy allows (integer factor k, 2147*k <= max). Trait-style questions (common_type 2- and 3-ary, is_convertible/is_constructible/is_assignable for Quantity and QuantityPoint, "
+                "same and mixed reps) are evaluated in a TU that must compile. distinct_nontrivial = number of operations for which both a rejected mismatch and an accepted same-dimension twin were observed.",
+        "operations": sorted(twin_ok | neg_ok), "operations_without_twin": sorted(neg_ok - twin_ok),
+        "configs": [str(c) for c in cfgs], "configs_skipped_by_deadline": skipped_cfgs, "exhaustive": not skipped_cfgs and not focus and not cut_by_deadline, "focus": focus,
+        "probes_not_run_by_deadline": cut_by_deadline,
+        "exhaustive_note": "the stated class x operation grid is enumerated completely" + ("" if not quick else " (quick: non-double and mixed reps on fixed thirds of the class pairs, "
+                           "delegating/unit-slot variants on a fixed half of the class pairs per operation, one representative rotation; g++/c++20 runs the comparison operators only)"),
+        "not_judged": dict(helper, note="will_conversion_overflow / is_conversion_lossy / will_conversion_truncate are not in the statement's operation list; a hard error inside "
+                                        "are_units_*_equivalent / Are*TypesEquivalent for different dimensions is allowed (answering 'yes' is not)"),
         "samples": [{"op": p.pid[0], "a": p.meta["a"], "b": p.meta["b"], "rep": p.meta["rep"], "expect": p.expect} for p in probes[:: max(1, len(probes) // 6)]][:6],
     })
     run.assumptions += ["only accept/reject decides; the diagnostic text is recorded as evidence of the mechanism",
-                        "twins use floating reps so that the conversion policy always allows the same-dimension expression"]
+                        "twins use floating reps (or int64_t with an integer factor inside the documented overflow threshold) so that the conversion policy allows the same-dimension expression",
+                        "uint8_t/int32_t mismatch probes whose operands' magnitudes differ can also be rejected by the overflow policy; the double and int64_t probes of the same pair are not",
+                        "std::common_type of two QuantityPoint types has no same-dimension twin (the primary template is ambiguous when both directions convert)"]
 
 
 def replay(path):
@@ -261,7 +471,7 @@ def replay(path):
         return 0
     res, failed = psx.run_dump(cfg, [(0, r["stmts"])], wd, "rp", PREAMBLE, flags=cflags(cfg))
     print("observed now:", res.get(0), failed)
-    if failed or res.get(0) == r.get("observed"):
+    if failed or res.get(0) == dict(r.get("observed") or {}, id=0):
         print("VIOLATION property=C01 replay=%s" % path)
         return 1
     return 0
